@@ -68,6 +68,8 @@ type Prog struct {
 	calleesCache map[ssa.CallInstruction][]*ssa.Function
 	callersCache map[*ssa.Function][]ssa.CallInstruction
 	posFile      map[*ssa.Function]string
+
+	RenameNotes []string // functions / fields analysed under their inventoried names (rename.go)
 }
 
 func loadConfig(repo string, c Config) (*Prog, error) {
@@ -125,6 +127,7 @@ func loadConfig(repo string, c Config) (*Prog, error) {
 		}
 		p.SSAPkgs[path] = sp
 	}
+	p.RenameNotes = resolveRenames(p)
 	all := ssautil.AllFunctions(prog)
 	for fn := range all {
 		if fn.Blocks == nil {
@@ -197,10 +200,19 @@ func (p *Prog) PkgPath(fn *ssa.Function) string {
 
 // FuncID is a stable, line-free name: pkg-relative, with receiver, closures as $n.
 func (p *Prog) FuncID(fn *ssa.Function) string {
-	s := fn.String()
-	s = strings.ReplaceAll(s, modulePath+"/", "")
-	s = strings.ReplaceAll(s, modulePath+".", "gtree.")
-	s = strings.ReplaceAll(s, modulePath, "gtree")
+	s := rawFuncID(fn)
+	if len(canonFuncs) > 0 {
+		top := outermost(fn)
+		if o := top.Origin(); o != nil {
+			top = o
+		}
+		if id, ok := canonFuncs[top]; ok {
+			raw := rawFuncID(top)
+			if strings.HasPrefix(s, raw) {
+				s = id + s[len(raw):]
+			}
+		}
+	}
 	return s
 }
 
